@@ -103,7 +103,11 @@ def check_crop(spec, ctx):
     on_end = bool(np.any(coords == lo) or np.any(coords == hi))
     exp = [k + 1 for k, c in enumerate(coords) if (c > lo or (lc and c == lo)) and (c < hi or (rc and c == hi))]
     ctx.case(spec, nontrivial=on_end, labels=["lc" if lc else "lo", "rc" if rc else "ro", "on_end" if on_end else "off_end", "attr" if spec["step_attr"] else "estimated", "2d" if spec["two_d"] else "1d"])
+    from vf.core import snapshot
+
+    before = snapshot(arr)
     out = ctx.call(spec, f"crop_dim({kw})", arrays.crop_dim, arr, "time", **kw)
+    ctx.unchanged(spec, "crop_dim: the input array", before, arr)
     idx = data_index(out)
     if idx is None:
         ctx.fail("crop_dim scrambled data across channels", spec, None, None, kind="data")
@@ -150,7 +154,11 @@ def check_extend(spec, ctx):
     on_lattice_end = (spec["oa"] == 0.0 and not spec["none_start"] and spec["a"] > 0) or (spec["ob"] == 0.0 and not spec["none_stop"] and spec["b"] > 0)
     frac_step = step not in (1.0, 0.5, 2.5)
     ctx.case(spec, nontrivial=(frac_step and spec["a"] + spec["b"] >= 3) or on_lattice_end, labels=["attr" if spec["step_attr"] else "estimated", "frac" if frac_step else "int", "on_lattice_end" if on_lattice_end else "off", "2d" if spec["two_d"] else "1d"])
+    from vf.core import snapshot
+
+    before = snapshot(arr)
     out = ctx.call(spec, f"extend_dim({kw})", arrays.extend_dim, arr, "time", **kw)
+    ctx.unchanged(spec, "extend_dim: the input array", before, arr)
     idx = data_index(out)
     if idx is None:
         ctx.fail("extend_dim scrambled data across channels", spec, None, None, kind="data")
@@ -190,12 +198,16 @@ def check_width(spec, ctx):
         raise ValueError("malformed spec")
     frac_step = step not in (1.0, 0.5, 2.5)
     ctx.case(spec, nontrivial=(w > n and frac_step) or w < n, labels=["grow" if w > n else ("shrink" if w < n else "same"), pos, "attr" if spec["step_attr"] else "estimated", "frac" if frac_step else "int"])
+    from vf.core import snapshot
+
+    before = snapshot(arr)
     if spec["fn"] == "specific" and w != n:
         fn = arrays.operations.extend_dim_width if w > n else arrays.operations.crop_dim_width
         kw = {"fill_value": FILL} if w > n else {}
         out = ctx.call(spec, f"{fn.__name__}(width={w}, position={pos})", fn, arr, "time", w, position=pos, **kw)
     else:
         out = ctx.call(spec, f"adjust_dim_width(width={w}, position={pos})", arrays.operations.adjust_dim_width, arr, "time", w, fill_value=FILL, position=pos)
+    ctx.unchanged(spec, "adjust_dim_width: the input array", before, arr)
     if out.sizes["time"] != w:
         ctx.fail(f"width {w} requested on an axis of {n} samples (step {step}, position {pos}): got {out.sizes['time']} samples", spec, int(out.sizes["time"]), w, kind="width")
     idx = data_index(out)
